@@ -261,6 +261,9 @@ def call_builtin(it, name, args, kwargs):
             import math
             return math.floor(v)
         return z3.ToReal(z3.ToInt(to_real(v)))
+    if name in ('log_', 'exp_', 'tanh_'):
+        from .trans import apply_trans
+        return apply_trans(it, name[:-1], args)
     if name == 'le':
         return scalar_cmp('<=', args[0], args[1], fp)
     if name == 'approx_h':
